@@ -17,6 +17,9 @@ from collections import defaultdict
 
 VALENCE = {("C", 0): 4, ("N", 0): 3, ("O", 0): 2, ("S", 0): 2, ("F", 0): 1,
            ("Cl", 0): 1, ("Br", 0): 1, ("N", 1): 4, ("O", -1): 1}
+# higher valence states of multi-valent elements (hydrogens complete the SMALLEST state that fits)
+VALENCE_STATES = {("S", 0): [2, 4, 6], ("P", 0): [3, 5], ("N", 0): [3, 5]}
+VALENCE[("P", 0)] = 3
 ORDER_SYMBOL = {1: "", 2: "=", 3: "#", 1.5: ""}
 
 ELEMENT_WEIGHTS = [(("C", 0), 58), (("N", 0), 11), (("O", 0), 14), (("S", 0), 4),
@@ -60,6 +63,16 @@ class Mol:
     def free(self, i):
         return int(self.atoms[i]["cap"] - self.used(i))
 
+    def hfill(self, i):
+        """Hydrogens that complete atom i: smallest valence state that fits its bonds, minus the bonds."""
+        atom = self.atoms[i]
+        if self.kind != "atomistic" or atom["el"] == "H":
+            return 0
+        used = self.used(i)
+        states = VALENCE_STATES.get((atom["el"], atom["charge"]), [atom["cap"]]) if not atom["arom"] else [atom["cap"]]
+        fits = [v for v in states if v >= used]
+        return int((fits[0] if fits else used) - used)
+
     def max_order(self, i):
         return max(self.adj[i].values(), default=0)
 
@@ -99,11 +112,16 @@ class Mol:
         return out
 
 
-def gen_atomistic(rng, n_target, rich=True):
+def gen_atomistic(rng, n_target, rich=True, hyper=(), explicit_h=False):
+    """hyper: elements that may take a higher valence state, e.g. ("S", "P", "N")."""
     mol = Mol("atomistic")
+    weights = list(ELEMENT_WEIGHTS) + ([(("P", 0), 3), (("S", 0), 4)] if hyper else [])
 
     def new_atom(key, arom=False):
-        return mol.add_atom(el=key[0], charge=key[1], arom=arom, cap=VALENCE[key])
+        cap = VALENCE[key]
+        if key[0] in hyper and key in VALENCE_STATES and not arom and rng.random() < 0.5:
+            cap = rng.choice(VALENCE_STATES[key][1:])
+        return mol.add_atom(el=key[0], charge=key[1], arom=arom, cap=cap)
 
     new_atom(("C", 0))
     guard = 0
@@ -115,8 +133,10 @@ def gen_atomistic(rng, n_target, rich=True):
             if not cands:
                 break
             a = rng.choice(cands)
-            key = _wchoice(rng, ELEMENT_WEIGHTS)
+            key = _wchoice(rng, weights)
             order = _wchoice(rng, [(1, 84), (2, 13), (3, 3)])
+            if mol.atoms[a]["cap"] > VALENCE[(mol.atoms[a]["el"], mol.atoms[a]["charge"])] and key == ("O", 0) and rng.random() < 0.6:
+                order = 2     # sulfoxide / sulfone / phosphate / nitro style oxygens
             order = min(order, mol.free(a), VALENCE[key])
             if mol.atoms[a]["arom"]:
                 order = 1
@@ -124,8 +144,11 @@ def gen_atomistic(rng, n_target, rich=True):
                 order = 1
             if order == 2 and (key[0] in ("F", "Cl", "Br") or mol.atoms[a]["charge"] or key[1]):
                 order = 1
-            if order >= 2 and (mol.max_order(a) >= 2):
+            hypervalent = mol.atoms[a]["cap"] > VALENCE[(mol.atoms[a]["el"], mol.atoms[a]["charge"])]
+            if order >= 2 and (mol.max_order(a) >= 2) and not hypervalent:
                 order = 1  # keep allenes / cumulenes out (sp centres strain rings and embedding)
+            if order == 3 and hypervalent:
+                order = 2
             b = new_atom(key)
             mol.add_bond(a, b, order)
         elif action == "benzene":
@@ -158,6 +181,16 @@ def gen_atomistic(rng, n_target, rich=True):
                     break
                 if done:
                     break
+    if explicit_h:
+        # hydrogens written out as atoms of their own (kept by the reader because they carry an annotation)
+        for i in range(len(mol.atoms)):
+            atom = mol.atoms[i]
+            # only on elements with a single valence state: on S/P/N a written hydrogen plus later bonds could
+            # push the atom into the next state, where 'smallest fitting valence' and 'written hydrogens are
+            # kept' no longer say the same thing
+            if atom["el"] in ("C", "O") and not atom["arom"] and not atom["charge"] and mol.hfill(i) >= 1 and rng.random() < 0.2:
+                h = mol.add_atom(el="H", charge=0, arom=False, cap=1, w=rng.choice([0.5, 0.2, 2.0]), wpos=rng.random() < 0.7, explicit=True)
+                mol.add_bond(i, h, 1)
     return mol
 
 
@@ -221,12 +254,19 @@ def _components_units(mol):
                         seen.add(y)
                         stack.append(y)
             units.append(sorted(comp))
+        elif atom.get("el") == "H":
+            continue
         else:
             seen.add(i)
             units.append([i])
     for uid, unit in enumerate(units):
         for i in unit:
             unit_of[i] = uid
+    for i, atom in enumerate(mol.atoms):
+        if atom.get("el") == "H" and i not in unit_of:
+            parent = next(iter(mol.adj[i]))
+            units[unit_of[parent]].append(i)
+            unit_of[i] = unit_of[parent]
     return units, unit_of
 
 
@@ -359,6 +399,8 @@ def _atom_text(atom):
         return "[#%s]" % atom["name"]
     if atom["arom"]:
         return atom["el"].lower()
+    if atom["el"] == "H":
+        return "[H%s]" % ((";%s" if atom.get("wpos", True) else ";w=%s") % atom["w"])
     weight = ""
     if atom.get("w") is not None:
         weight = (";%s" if atom.get("wpos", True) else ";w=%s") % atom["w"]
@@ -509,18 +551,25 @@ def _make_labels(rng, n):
 
 
 def expected_hcounts(mol):
-    return [mol.free(i) if mol.kind == "atomistic" else 0 for i in range(len(mol.atoms))]
+    """Total hydrogens per heavy atom: completed ones plus those written out as atoms."""
+    out = []
+    for i, atom in enumerate(mol.atoms):
+        if mol.kind != "atomistic" or atom["el"] == "H":
+            out.append(0)
+        else:
+            out.append(mol.hfill(i) + sum(1 for j in mol.adj[i] if mol.atoms[j]["el"] == "H"))
+    return out
 
 
-def build_item(rng, kind=None, size=None, n_leaves=None, mid_levels=None, weights=False):
+def build_item(rng, kind=None, size=None, n_leaves=None, mid_levels=None, weights=False, hyper=(), explicit_h=False):
     """Generate one workload item (plain data, JSON-able)."""
     kind = kind or ("atomistic" if rng.random() < 0.7 else "coarse")
     size = size or rng.randint(3, 26)
     if kind == "atomistic":
-        mol = gen_atomistic(rng, size)
+        mol = gen_atomistic(rng, size, hyper=hyper, explicit_h=explicit_h)
         if weights:
             for atom in mol.atoms:
-                if not atom["arom"] and rng.random() < 0.45:
+                if not atom["arom"] and atom["el"] != "H" and rng.random() < 0.45:
                     atom["w"] = rng.choice([0.5, 0.25, 2.0, 3.0, 0.1, 1.5, 0])
                     atom["wpos"] = rng.random() < 0.7
     else:
@@ -627,6 +676,7 @@ def build_item(rng, kind=None, size=None, n_leaves=None, mid_levels=None, weight
         "flat": flat_base_text + "." + block_texts[-1],
         "composition": True,
         "shared_atoms": False,
+        "explicit_h": any(a.get("el") == "H" for a in mol.atoms),
         "mol": {
             "atoms": [dict(a) for a in mol.atoms],
             "bonds": [[i, j, o] for (i, j), o in sorted(mol.bonds.items())],
